@@ -1,16 +1,318 @@
 /-
 C10 — No client input can crash the server or disturb other sessions.
+
+Theorems about the model of `Model/ShapesClient.lean` instantiated with the facts
+regenerated from the working tree (`Fc = Facts.current`: the validation table of
+every `CheckValid`, the dereference table, the order decode → validate →
+dispatch, the dispatch table, the label of the message counter, the size
+limit), stated against `Spec/ShapesClient.lean`.
+
+"Every byte string" is "every `Frame`": any size, text or binary, a decode error
+or any value of the decoded structure (all sub-objects optional, all leaves
+arbitrary) — in every state of the sender's connection.
 -/
 import SigModel.Lemmas.ShapesClient
 
 namespace SigModel.ShapesClient
 open SigModel.Generated.ShapesClient
 
+/-! ## 0. The tie: what the extractor finds is what the model accounts for -/
+
 /-- Every dereference of a pointer below a client message that the extractor
-finds in the Go sources is a `crash` branch of the model. -/
+finds in the Go sources is a `crash` branch of the model (`sites`). -/
 theorem C10_derefs_accounted : derefs.all (fun d => sites.contains d) = true := by decide
 
+/-- Unchecked type assertions and index expressions over client-controlled values are the known ones. -/
 theorem C10_assertions_known :
     typeAssertions = knownTypeAssertions ∧ indexExprs = knownIndexExprs := by decide
+
+/-- Decode and validate precede every use; only `hello` is dispatched without a
+session; binary frames are answered; the read limit is the constant; the
+message counter is labelled from a fixed set. -/
+theorem C10_order_facts :
+    Fc.validateBeforeDispatch = true ∧ Fc.preHelloOnlyHello = true ∧ Fc.binaryFrameAnsweredInvalidFormat = true ∧
+    Fc.readLimitIsMaxMessageSize = true ∧ Fc.messageCounterLabelFromFixedSet = true ∧ Fc.maxMessageSize = 65536 := by decide
+
+/-! ## 1. No crash -/
+
+theorem handlerFor_cases (t : String) :
+    (t = "room" ∧ handlerFor Fc t = "processRoom") ∨
+    (t = "message" ∧ handlerFor Fc t = "processMessageMsg") ∨
+    (t = "control" ∧ handlerFor Fc t = "processControlMsg") ∨
+    (t = "internal" ∧ handlerFor Fc t = "processInternalMsg") ∨
+    (t = "transient" ∧ handlerFor Fc t = "processTransientMsg") ∨
+    (t = "bye" ∧ handlerFor Fc t = "processByeMsg") ∨
+    handlerFor Fc t = "" := by
+  unfold handlerFor
+  simp only [Fc, Facts.current, dispatchTable, List.lookup]
+  by_cases h1 : t = "room"
+  · subst h1; left; decide
+  by_cases h2 : t = "message"
+  · subst h2; right; left; decide
+  by_cases h3 : t = "control"
+  · subst h3; right; right; left; decide
+  by_cases h4 : t = "internal"
+  · subst h4; right; right; right; left; decide
+  by_cases h5 : t = "transient"
+  · subst h5; right; right; right; right; left; decide
+  by_cases h6 : t = "bye"
+  · subst h6; right; right; right; right; right; left; decide
+  right; right; right; right; right; right
+  by_cases h7 : t = "hello"
+  · subst h7; decide
+  by_cases h8 : t = "*"
+  · subst h8; decide
+  have e1 : (t == "room") = false := by simpa using h1
+  have e2 : (t == "message") = false := by simpa using h2
+  have e3 : (t == "control") = false := by simpa using h3
+  have e4 : (t == "internal") = false := by simpa using h4
+  have e5 : (t == "transient") = false := by simpa using h5
+  have e6 : (t == "bye") = false := by simpa using h6
+  have e7 : (t == "hello") = false := by simpa using h7
+  have e8 : (t == "*") = false := by simpa using h8
+  simp only [e1, e2, e3, e4, e5, e6, e7, e8]
+  decide
+
+theorem withHttp_crash {st : St} {o : Outcome} {site : String} (h : withHttp st o = .crash site) : o = .crash site := by
+  unfold withHttp at h
+  cases o with
+  | crash s => simpa using h
+  | ok ob nx =>
+    simp only [] at h
+    split at h
+    · split at h <;> simp at h
+    · simp at h
+
+theorem modelHello_no_crash (st : St) (m : ClientMessage) (hv : checkValid Fc m = .ok) (ht : m.mtype = "hello")
+    (site : String) : modelHello Fc st m ≠ .crash site := by
+  obtain ⟨h, hm, hh⟩ := valid_hello hv ht
+  unfold modelHello
+  rw [hm]
+  simp only []
+  cases hr : h.resume with
+  | other => simp
+  | empty =>
+    obtain ⟨a, ha, hurl⟩ := hello_auth hh hr
+    rw [ha]
+    simp only []
+    have hvb : Fc.validateBeforeDispatch = true := by decide
+    simp only [hvb, if_true]
+    by_cases hc : effType a = "client" ∨ effType a = "federation"
+    · rw [if_pos hc]
+      rcases hurl hc with hu | hu <;> rw [hu] <;> simp only []
+      · repeat (first | split | simp)
+      · simp
+    · rw [if_neg hc]
+      repeat (first | split | simp)
+
+theorem modelRoom_no_crash (st : St) (s : Sess) (m : ClientMessage) (hv : checkValid Fc m = .ok) (ht : m.mtype = "room")
+    (site : String) : modelRoom st s m ≠ .crash site := by
+  obtain ⟨r, hm, hr⟩ := valid_room hv ht
+  unfold modelRoom
+  rw [hm]
+  simp only []
+  cases hid : r.roomId with
+  | empty => simp only []; repeat (first | split | simp)
+  | «by» =>
+    simp only []
+    cases hf : r.federation with
+    | none => simp only []; repeat (first | split | simp)
+    | some f =>
+      have := room_federation hr hf
+      simp [this]
+  | deny =>
+    simp only []
+    cases hf : r.federation with
+    | none => simp only []; repeat (first | split | simp)
+    | some f =>
+      have := room_federation hr hf
+      simp [this]
+  | other n =>
+    simp only []
+    cases hf : r.federation with
+    | none => simp only []; repeat (first | split | simp)
+    | some f =>
+      have := room_federation hr hf
+      simp [this]
+
+theorem checkData_no_crash (d : DataShape) (site : String) : checkData d ≠ .crash site := by
+  unfold checkData; repeat (first | split | simp [invalid])
+
+theorem modelMessage_no_crash (st : St) (s : Sess) (m : ClientMessage) (hv : checkValid Fc m = .ok) (ht : m.mtype = "message")
+    (site : String) : modelMessage st s m ≠ .crash site := by
+  obtain ⟨mm, hm, _⟩ := valid_message hv ht
+  unfold modelMessage
+  rw [hm]
+  simp only []
+  split
+  · cases hd : checkData mm.data with
+    | ok => simp only []; repeat (first | split | simp)
+    | err c => simp
+    | crash s2 => exact absurd hd (checkData_no_crash _ _)
+  · simp
+
+theorem modelControl_no_crash (st : St) (s : Sess) (m : ClientMessage) (hv : checkValid Fc m = .ok) (ht : m.mtype = "control")
+    (site : String) : modelControl st s m ≠ .crash site := by
+  obtain ⟨mm, hm, _⟩ := valid_control hv ht
+  unfold modelControl
+  rw [hm]
+  simp only []
+  split <;> simp
+
+theorem dialoutHandler_no_crash (i : Internal) (site : String) : dialoutHandler Fc i ≠ .crash site := by
+  have hg : dialoutHandlerGuarded Fc = true := by decide
+  unfold dialoutHandler
+  simp only [hg, if_true]
+  split
+  · cases i.dialout <;> simp
+  · simp
+
+theorem internalSwitch_no_crash (st : St) (s : Sess) (i : Internal) (http : Option String) (hi : checkInternal Fc i = .ok)
+    (site : String) : internalSwitch st s i http ≠ .crash site := by
+  unfold internalSwitch
+  simp only []
+  by_cases h1 : i.itype = "addsession"
+  · obtain ⟨a, ha⟩ := Option.isSome_iff_exists.mp (internal_add hi h1)
+    rw [if_pos h1, ha]
+    simp only []
+    split <;> simp
+  rw [if_neg h1]
+  by_cases h2 : i.itype = "updatesession"
+  · obtain ⟨a, ha⟩ := Option.isSome_iff_exists.mp (internal_upd hi h2)
+    rw [if_pos h2, ha]
+    simp only []
+    split <;> simp
+  rw [if_neg h2]
+  by_cases h3 : i.itype = "removesession"
+  · obtain ⟨a, ha⟩ := Option.isSome_iff_exists.mp (internal_rem hi h3)
+    rw [if_pos h3, ha]
+    simp only []
+    split <;> simp
+  rw [if_neg h3]
+  by_cases h4 : i.itype = "incall"
+  · obtain ⟨a, ha⟩ := Option.isSome_iff_exists.mp (internal_incall hi h4)
+    rw [if_pos h4, ha]
+    simp
+  rw [if_neg h4]
+  by_cases h5 : i.itype = "dialout"
+  · obtain ⟨d, hd, hdv⟩ := internal_dialout hi h5
+    rw [if_pos h5, hd]
+    simp only []
+    by_cases hs : d.dtype = "status"
+    · obtain ⟨v, hv⟩ := Option.isSome_iff_exists.mp (dialout_status hdv hs)
+      rw [if_pos hs, hv]
+      simp only []
+      split <;> simp
+    · rw [if_neg hs]
+      simp
+  rw [if_neg h5]
+  simp
+
+theorem modelInternal_no_crash (st : St) (s : Sess) (m : ClientMessage) (hv : checkValid Fc m = .ok) (ht : m.mtype = "internal")
+    (site : String) : modelInternal Fc st s m ≠ .crash site := by
+  obtain ⟨i, hm, hi⟩ := valid_internal hv ht
+  unfold modelInternal
+  rw [hm]
+  simp only []
+  split
+  · simp
+  · split
+    · cases hd : dialoutHandler Fc i with
+      | crash s2 => exact absurd hd (dialoutHandler_no_crash i s2)
+      | notConsumed => simp only []; exact internalSwitch_no_crash _ _ _ _ hi _
+      | consumed stop http =>
+        simp only []
+        split
+        · simp
+        · exact internalSwitch_no_crash _ _ _ _ hi _
+    · exact internalSwitch_no_crash _ _ _ _ hi _
+
+theorem modelTransient_no_crash (st : St) (s : Sess) (m : ClientMessage) (hv : checkValid Fc m = .ok) (ht : m.mtype = "transient")
+    (site : String) : modelTransient st s m ≠ .crash site := by
+  obtain ⟨t, hm, _⟩ := valid_transient hv ht
+  unfold modelTransient
+  rw [hm]
+  simp only []
+  repeat (first | split | simp)
+
+theorem modelProxy_no_crash (st : St) (m : ClientMessage) (hv : checkValid Fc m = .ok) (site : String) :
+    modelProxy st m ≠ .crash site := by
+  unfold modelProxy
+  split
+  · rename_i ht
+    obtain ⟨mm, hm, _⟩ := valid_message hv ht
+    rw [hm]; simp
+  · simp
+
+theorem dispatchSession_no_crash (st : St) (s : Sess) (m : ClientMessage) (hv : checkValid Fc m = .ok) (site : String) :
+    dispatchSession Fc st s m ≠ .crash site := by
+  unfold dispatchSession
+  simp only []
+  rcases handlerFor_cases m.mtype with ⟨ht, hh⟩ | ⟨ht, hh⟩ | ⟨ht, hh⟩ | ⟨ht, hh⟩ | ⟨ht, hh⟩ | ⟨ht, hh⟩ | hh
+  · rw [hh]; simp only [if_true]; exact modelRoom_no_crash _ _ _ hv ht _
+  · rw [hh]; simp only [String.reduceEq, if_false, if_true]; exact modelMessage_no_crash _ _ _ hv ht _
+  · rw [hh]; simp only [String.reduceEq, if_false, if_true]; exact modelControl_no_crash _ _ _ hv ht _
+  · rw [hh]; simp only [String.reduceEq, if_false, if_true]; exact modelInternal_no_crash _ _ _ hv ht _
+  · rw [hh]; simp only [String.reduceEq, if_false, if_true]; exact modelTransient_no_crash _ _ _ hv ht _
+  · rw [hh]; simp only [String.reduceEq, if_false, if_true]; simp [modelBye]
+  · rw [hh]; simp only [String.reduceEq, if_false, if_true]; simp
+
+theorem processMessage_no_crash (st : St) (m : ClientMessage) (site : String) : processMessage Fc st m ≠ .crash site := by
+  unfold processMessage
+  have hvb : Fc.validateBeforeDispatch = true := by decide
+  have hlb : Fc.messageCounterLabelFromFixedSet = true := by decide
+  have hpre : Fc.preHelloOnlyHello = true := by decide
+  simp only [hvb, if_true]
+  cases hv : checkValid Fc m with
+  | crash s2 => exact absurd hv (checkValid_no_crash _ _)
+  | err c => simp
+  | ok =>
+    simp only [hlb]
+    simp only [Bool.not_true, Bool.false_eq_true, false_and, if_false]
+    cases hc : st.conn with
+    | dead => simp
+    | nosession =>
+      simp only [hpre, true_and]
+      by_cases ht : m.mtype = "hello"
+      · simp only [ht, ne_eq, not_true_eq_false, if_false]
+        exact modelHello_no_crash _ _ hv ht _
+      · simp [ht]
+    | session s =>
+      simp only []
+      split
+      · exact modelProxy_no_crash _ _ hv _
+      · exact dispatchSession_no_crash _ _ _ hv _
+
+/-- **C10_total.** In every state of the sender's connection, no frame — any
+size, text or binary, undecodable or any value of the decoded structure — takes
+the model to a `crash` outcome. -/
+theorem C10_total (st : St) (f : Frame) (site : String) : processFrame Fc st f ≠ .crash site := by
+  unfold processFrame
+  cases hc : st.conn with
+  | dead => simp
+  | nosession =>
+    simp only []
+    intro h
+    have := withHttp_crash h
+    revert this
+    split
+    · simp
+    · split
+      · simp
+      · cases f.dec with
+        | err => simp
+        | ok m => simpa using processMessage_no_crash _ _ _
+  | session s =>
+    simp only []
+    intro h
+    have := withHttp_crash h
+    revert this
+    split
+    · simp
+    · split
+      · simp
+      · cases f.dec with
+        | err => simp
+        | ok m => simpa using processMessage_no_crash _ _ _
 
 end SigModel.ShapesClient
